@@ -13,6 +13,7 @@ import (
 	"sort"
 	"strconv"
 	"sync"
+	"sync/atomic"
 	"testing"
 	"time"
 
@@ -45,6 +46,9 @@ type scenario struct {
 	Mode      string  `json:"mode"`      // gated: the harness releases attempts in Release order | auto: attempts finish by themselves
 	Release   []int   `json:"release"`   // gated: permutation of the attempts that can start
 	Placement string  `json:"placement"` // alone | retry(hedge) | timeout(hedge) | fallback(hedge) | hedge(timeout)
+	// AlignAccept (cancel "if"): attempts with acceptable results wait for each other inside the predicate (up to 300 us), so
+	// that two results are accepted at the same instant
+	AlignAccept bool `json:"align_accept,omitempty"`
 	// SharedBuilder: the builder is used again (more hedges, another listener) after the policy under test was built
 	SharedBuilder bool `json:"shared_builder,omitempty"`
 	Async         bool `json:"async"`
@@ -169,7 +173,18 @@ func run(sc scenario, propID string) (out runOut) {
 	case "errors":
 		b.CancelOnErrors(errors.New("never produced"), errC, errLoser2) // several targets in one call
 	case "if":
-		b.CancelIf(func(v int, err error) bool { return err == nil && v%100 == 1 })
+		var inPredicate atomic.Int32
+		b.CancelIf(func(v int, err error) bool {
+			match := err == nil && v%100 == 1
+			if sc.AlignAccept && match {
+				// two attempts with acceptable results leave the predicate at the same instant: exactly one of them is the
+				// winner, and it is the one whose result the caller gets
+				inPredicate.Add(1)
+				for end := time.Now().Add(300 * time.Microsecond); inPredicate.Load() < 2 && time.Now().Before(end); {
+				}
+			}
+			return match
+		})
 	}
 	b.OnHedge(func(e failsafe.ExecutionEvent[int]) {
 		mu.Lock()
@@ -529,6 +544,7 @@ func genScenario(t *rapid.T) scenario {
 	sc.Cancel = rapid.SampledFrom([]string{"default", "result", "errors", "if"}).Draw(t, "cancel")
 	sc.Placement = rapid.SampledFrom([]string{"alone", "alone", "retry(hedge)", "timeout(hedge)", "fallback(hedge)", "hedge(timeout)"}).Draw(t, "placement")
 	sc.SharedBuilder = rapid.IntRange(0, 3).Draw(t, "sharedBuilder") == 0
+	sc.AlignAccept = sc.Cancel == "if" && rapid.Bool().Draw(t, "alignAccept")
 	sc.Async = rapid.Bool().Draw(t, "async")
 	for i := 0; i < sc.MaxHedges; i++ {
 		ds := []int64{0, 200, 1000, 3000, 5000}
